@@ -81,6 +81,7 @@ class Arr(Val):
         self.t = t
         self.origin = origin      # access path when the array pre-exists the analysed call
         self.fresh = origin is None
+        self.cells = None         # {(i, j): term} for entries stored at concrete positions [:, i, j] (overrides t)
         if interp is not None:
             interp.live.append(self)
 
@@ -332,6 +333,8 @@ class Interp(object):
         self.label_n = 0
         self.trace_reads = None
         self.sumfacts = {}
+        self.opaque_arith = False     # see arith_terms
+        self.inf_syms = frozenset()   # symbols that stand for +infinity (IEEE rules apply to them, see ieee())
         self.nonneg = set()
         self.col_base = {}
         self.entry_writes = []
@@ -395,11 +398,16 @@ class Interp(object):
         if isinstance(v, Num):
             return v.t, v.kind
         if isinstance(v, Arr):
+            if v.cells:
+                raise Unsupported('whole-array use of an array whose entries were stored one position at a time', node)
             return v.t, 'array'
         if isinstance(v, View):
             return self.read_view(v, node), v.kind
         if isinstance(v, Const) and isinstance(v.v, bool):
             return N.NF.const(1 if v.v else 0), 'scalar'
+        if isinstance(v, Mask) and getattr(v, 'indexcmp', None) is None and getattr(v, 'labelcmp', None) is None:
+            # a boolean array in arithmetic is its 0/1 indicator
+            return P.ite(v.cond, N.NF.const(1), N.NF.const(0)), v.kind
         if isinstance(v, Seq) and len(v.items) == 1:
             t, _ = self.term_of(v.items[0], node)
             return t, 'array'
@@ -421,10 +429,29 @@ class Interp(object):
 
     # ---- views -----------------------------------------------------------------------------------
     def read_view(self, v, node=None):
+        if v.idx[0] == 'entryc' and isinstance(v.base, Arr):
+            return self.read_cell(v.base, v.idx[1], v.idx[2], node)
+        if isinstance(v.base, Arr) and v.base.cells:
+            raise Unsupported('view %r of an array whose entries were stored one position at a time' % (v.idx,), node)
         base_t = v.base.t if isinstance(v.base, Arr) else self.read_view(v.base, node)
         if v.idx[0] == 'reshape':
             return self.lib.reshape_term(self, base_t, v.idx[1], v.idx[2], node)
         return self.index_term(base_t, v.idx, node)
+
+    def read_cell(self, arr, i, j, node=None):
+        """pair function [:, i, j] of a stack of matrices, i and j concrete"""
+        if arr.cells and (i, j) in arr.cells:
+            return arr.cells[(i, j)]
+
+        def leaf(a):
+            if a[0] == 'fn' and a[1] in ELEMENTWISE_FNS:
+                return None
+            if self.atom_is_array(a):
+                return N.fn('entc', N.NF.atom(a), N.NF.const(i), N.NF.const(j))
+            if a[0] in ('sym', 'fn'):
+                return N.NF.atom(a)
+            return None
+        return P.lift1(lambda x: N.transform(x, leaf), arr.t)
 
     def sign_of(self, t):
         """'+' if t >= 0, '-' if t <= 0 on every iteration of the enclosing summation loops
@@ -587,7 +614,10 @@ class Interp(object):
     def write_view(self, v, newt, node, how='store'):
         """in-place write through a (possibly nested) view: the root heap cell changes"""
         base = v.base
-        base_t = base.t if isinstance(base, Arr) else self.read_view(base, node)
+        if v.idx[0] == 'entryc' and isinstance(base, Arr):
+            base_t = None
+        else:
+            base_t = base.t if isinstance(base, Arr) else self.read_view(base, node)
         if v.idx[0] == 'entry':
             _, la, lb = v.idx
             if P.is_pw(base_t) or P.is_pw(newt):
@@ -599,6 +629,13 @@ class Interp(object):
             self.entry_writes.append({'arr': root, 'pair': (la, lb), 'term': newt,
                                       'loc': self.loc(node) if node is not None else None,
                                       'loop_labels': [l for c in self.loopctx for l in c.get('labels', ())]})
+        elif v.idx[0] == 'entryc' and isinstance(base, Arr):
+            if base.cells is None:
+                base.cells = {}
+            base.cells[(v.idx[1], v.idx[2])] = newt
+            if not base.fresh:
+                self.event('write', base.origin, node, via='view', how=how)
+            return
         elif v.idx[0] == 'reshape':
             inv = {'unflat': 'flat', 'flat': 'unflat', 'col3': 'uncol3'}[v.idx[1]]
             full = self.lib.reshape_term(self, newt, inv, v.idx[2], node)
@@ -788,6 +825,14 @@ class Interp(object):
             # the class of the resulting exception object
             simple = isinstance(e, ast.Name) or (isinstance(e, ast.Attribute) and isinstance(e.value, ast.Name) and
                                                  e.value.id not in ('self',))
+            if simple and isinstance(st.exc, ast.Call):
+                # the arguments of the exception are evaluated before it is raised: an error in building the message
+                # (str.join over non-strings, a bad format) is what propagates
+                for a_ in list(st.exc.args) + [k_.value for k_ in st.exc.keywords]:
+                    try:
+                        self.eval(a_, env)
+                    except Unsupported:
+                        pass
             if not simple or (isinstance(e, ast.Name) and env.get(e.id) is not None):
                 v = self.eval(st.exc, env)
                 if isinstance(v, Obj) and v.cls == 'exception':
@@ -819,13 +864,24 @@ class Interp(object):
     def absorb_filter(self, op, la, lb, st):
         if not self.loopctx:
             raise Unsupported('index comparison outside a pair loop', st)
-        if st.orelse:
+        def skips(block):
+            # a branch that contributes nothing to this iteration: empty, `pass`, or `continue`
+            return all(isinstance(x, ast.Pass) for x in block) or \
+                (all(isinstance(x, ast.Pass) for x in block[:-1]) and isinstance(block[-1], ast.Continue))
+        taken = True
+        if skips(st.body) and (st.orelse or isinstance(st.body[-1], ast.Continue)):
+            # `if c: continue` / `if c: pass else: B`: the iteration goes on under the negated filter
+            neg = {'<': '>=', '<=': '>', '>': '<=', '>=': '<', '==': '!=', '!=': '=='}
+            op, taken = neg[op], False
+            if st.orelse and skips(st.orelse) and not isinstance(st.body[-1], ast.Continue):
+                return True                 # nothing happens on either side
+        elif st.orelse and not skips(st.orelse):
             raise Unsupported('else-branch on a pair-loop filter', st)
         ctx = self.loopctx[-1]
         ctx.setdefault('filters', []).append((op, la, lb, self.loc(st)))
         if op in ('<', '>', '!='):
             self.distinct.add(frozenset((la, lb)))
-        return True
+        return taken
 
     def truth(self, v, node, ask=True):
         if isinstance(v, Const):
@@ -945,6 +1001,23 @@ class Interp(object):
              'MatMult': '__matmul__', 'Pow': '__pow__'}
     _ROPS = {'Add': '__radd__', 'Sub': '__rsub__', 'Mult': '__rmul__', 'Div': '__rtruediv__'}
 
+    def lead_kinds(self, t):
+        if P.is_pw(t):
+            t = next(P.leaves(t))
+        return {self.sym_kind.get(a[1], 'scalar') for a in t.all_atoms() if a[0] == 'sym'} - {'scalar'}
+
+    def check_inplace_broadcast(self, cur_t, rhs, node):
+        """an in-place ufunc cannot grow its output: a length-1 stack (kind 'mat1') combined in place with a full-length
+        stack (kind 'tensor') is refused by numpy"""
+        try:
+            rt, _ = self.term_of(rhs, node)
+        except Unsupported:
+            return
+        lk, rk = self.lead_kinds(cur_t), self.lead_kinds(rt)
+        if lk and lk <= {'mat1'} and 'tensor' in rk:
+            raise Raised('ValueError', 'non-broadcastable output operand: an in-place operator cannot grow a length-1 array to the '
+                         'length of the other operand', self.loc(node))
+
     def inplace(self, op, cur, rhs, node, key=None):
         """value to rebind the target to; in-place effects applied to heap cells"""
         if isinstance(cur, Obj):
@@ -955,6 +1028,7 @@ class Interp(object):
             return self.binop(op, cur, rhs, node)
         if isinstance(cur, Arr):
             t = self.arith(op, cur, rhs, node)
+            self.check_inplace_broadcast(cur.t, rhs, node)
             cur.t = t
             self.note_dtype_cast(cur, node, 'in-place ' + op)
             if not cur.fresh:
@@ -1366,10 +1440,27 @@ class Interp(object):
             return self.lib.types_attr(self, o, name, node)
         if isinstance(o, Mask) and name == 'shape':
             return Obj('shape', {'arr': o})
+        if isinstance(o, Mask) and name == 'astype' and getattr(o, 'indexcmp', None) is None:
+            return Native('ndarray.astype', self.lib.nd_astype, o)
         if isinstance(o, Const) and isinstance(o.v, str):
             hook = self.str_methods.get(name)
             if hook is not None:
                 return Native('str.' + name, hook, o)
+            if name == 'join':
+                def join(ip, s_, a, k, n):
+                    it = a[0] if a else None
+                    if isinstance(it, Types):
+                        it = ip.lib.types_iter(ip, it)
+                    if isinstance(it, Seq):
+                        for x in it.items:
+                            if not (isinstance(x, Const) and isinstance(x.v, str)):
+                                if isinstance(x, Label):
+                                    raise Unsupported('str.join over type labels: a TypeError unless every label is a string', n)
+                                raise Raised('TypeError', 'sequence item: expected str instance, %s found' % (
+                                    type(x.v).__name__ if isinstance(x, Const) else 'number'), ip.loc(n))
+                        return Const('<str>')
+                    raise Unsupported('str.join over %r' % (it,), n)
+                return Native('str.join', join, o)
             return Native('str.' + name, lambda ip, s, a, k, n: Const('<str>'), o)
         if isinstance(o, Seq):
             return self.lib.seq_attr(self, o, name, node)
@@ -1529,6 +1620,8 @@ class Interp(object):
         if isinstance(a, Mask) and isinstance(b, Mask) and op in ('BitAnd', 'BitOr'):
             c = (a.cond & b.cond) if op == 'BitAnd' else (a.cond | b.cond)
             return Mask(c, 'array' if 'array' in (a.kind, b.kind) else 'scalar')
+        if isinstance(a, Mask) and isinstance(b, Mask) and op == 'Sub':
+            raise Raised('TypeError', 'numpy boolean subtract, the `-` operator, is not supported', self.loc(node))
         if isinstance(a, Const) and isinstance(a.v, str):
             return Const('<str>')
         if isinstance(a, Seq) and isinstance(b, Seq) and op == 'Add':
@@ -1562,16 +1655,73 @@ class Interp(object):
         tb, _ = self.term_of(b, node)
         return self.arith_terms(op, ta, tb, node)
 
+    def ieee(self, op, f):
+        """leaf operation with IEEE-754 treatment of the symbols in inf_syms (each stands for +infinity):
+        0 * inf, inf - inf and inf / inf are NaN (the polynomial normal form would cancel them); a value that tends to zero
+        (exp(-inf), 1/inf) is dropped first.  Where the normal form cannot tell whether an operand is infinite the result
+        is the distinct atom MaybeNaN (an undecided leaf, never a verdict)."""
+        infs = self.inf_syms
+        if not infs:
+            return f
+
+        def state(x):
+            # 'fin' | 'inf' | '?'
+            if not (infs & x.symbols()):
+                return 'fin'
+            if len(x.den) != 1:
+                return '?'
+            top = False
+            for m in x.num:
+                for a, e in m:
+                    if a[0] == 'sym' and a[1] in infs:
+                        if e > 0:
+                            top = True
+                        continue
+                    if a[0] == 'exp' and any(b[0] == 'sym' and b[1] in infs for b, _ in a[1]):
+                        if e > 0 and all(N.atom_positive(b) or (b[0] == 'sym' and b[1] in infs) for b, _ in a[1]):
+                            top = True
+                            continue
+                        return '?'
+                    if any(b[0] == 'sym' and b[1] in infs for b in N.NF.atom(a).all_atoms()):
+                        return '?'
+            return 'inf' if top else '?'
+
+        def g(x, y):
+            x, y = N.drop_inf(x, infs), N.drop_inf(y, infs)
+            sx, sy = state(x), state(y)
+            nan = None
+            if op == 'Mult' and ((x.is_zero() and sy != 'fin') or (y.is_zero() and sx != 'fin')):
+                nan = sy if x.is_zero() else sx
+            elif op in ('Add', 'Sub', 'Div') and sx != 'fin' and sy != 'fin':
+                r = f(x, y)
+                if not (infs & r.symbols()) or op == 'Div':
+                    nan = 'inf' if (sx == 'inf' and sy == 'inf') else '?'
+            if nan is not None:
+                return N.sym('NaN') if nan == 'inf' else N.sym('MaybeNaN')
+            return N.drop_inf(f(x, y), infs)
+        return g
+
     def arith_terms(self, op, ta, tb, node):
+        if self.opaque_arith and op in ('Add', 'Sub', 'Mult', 'Div', 'Pow'):
+            # no algebra: the result is the operator applied to its operands (constants are still folded).  Two terms are
+            # then equal iff they were computed by the same operations from the same inputs -- all a history rule needs
+            def opq(x, y):
+                if x.is_const() and y.is_const() and not (op == 'Div' and y.is_zero()) and op != 'Pow':
+                    return {'Add': x + y, 'Sub': x - y, 'Mult': x * y, 'Div': x / y}[op] if op != 'Div' else x / y
+                name = N.intern_opaque(op, x, y)
+                arrayish = any(self.sym_kind.get(sn, 'scalar') != 'scalar' for sn in (x.symbols() | y.symbols()))
+                self.sym_kind.setdefault(name, 'curve' if arrayish else 'scalar')
+                return N.sym(name)
+            return P.lift2(opq, ta, tb)
         try:
             if op == 'Add':
-                return P.lift2(lambda x, y: x + y, ta, tb)
+                return P.lift2(self.ieee(op, lambda x, y: x + y), ta, tb)
             if op == 'Sub':
-                return P.lift2(lambda x, y: x - y, ta, tb)
+                return P.lift2(self.ieee(op, lambda x, y: x - y), ta, tb)
             if op == 'Mult':
-                return P.lift2(lambda x, y: x * y, ta, tb)
+                return P.lift2(self.ieee(op, lambda x, y: x * y), ta, tb)
             if op == 'Div':
-                return P.lift2(lambda x, y: x / y, ta, tb)
+                return P.lift2(self.ieee(op, lambda x, y: x / y), ta, tb)
             if op == 'Pow':
                 return P.lift2(lambda x, y: N.nf_pow(x, y), ta, tb)
             if op == 'FloorDiv':
@@ -1630,7 +1780,13 @@ class Interp(object):
             if isinstance(a, Unknown) or isinstance(b, Unknown):
                 raise Unsupported('identity test on unknown value', node)
             if isinstance(a, Const) and isinstance(b, Const):
-                r = a.v is b.v or (a.v == b.v and not isinstance(a.v, tuple) or a.v == b.v)
+                # identity of constants: the singletons and equal literals of the same type (1 is not True); a `boxed`
+                # constant stands for an object built at run time (a label read from a file): equal to, but not the same
+                # object as, any other
+                if getattr(a, 'boxed', False) or getattr(b, 'boxed', False):
+                    r = a is b
+                else:
+                    r = a.v is b.v or (type(a.v) is type(b.v) and a.v == b.v)
             elif isinstance(a, Const) or isinstance(b, Const):
                 r = False
             else:
@@ -1638,7 +1794,9 @@ class Interp(object):
             return Const(r if op == 'Is' else not r)
         if op in ('In', 'NotIn'):
             if isinstance(b, Obj) and b.cls == 'dict':
-                b = Seq([Const(k) for k in b.attrs['items']], 'list')
+                hk = self.lib._dict_key(a, node)
+                found = hk in b.attrs['items']
+                return Const(found if op == 'In' else not found)
             if isinstance(b, Seq):
                 found = False
                 for x in b.items:
@@ -1875,8 +2033,13 @@ class Interp(object):
                 newt, _ = self.term_of(v, node)
                 self.write_view(View(o, d), newt, node)
                 return
+            if d[0] == 'entryc':
+                newt, _ = self.term_of(v, node)
+                self.write_view(View(o, d), newt, node)
+                return
             if d[0] == 'all':
                 newt, _ = self.term_of(v, node)
+                o.cells = None
                 o.t = newt
                 if not o.fresh:
                     self.event('write', o.origin, node, via='slice-store')
